@@ -1,8 +1,269 @@
+import Qentem.Model.Value
+import Qentem.Model.Group
+import Qentem.Model.ValueOps
 import Qentem.Driver.Proto
-namespace Qentem.Driver.Value
-open Qentem.Driver
+/-!
+Driver for the Value / GroupBy model (C12, C18).
 
-/-- Stub: replaced by the area's model driver. `op` is the first token of the line. -/
-def handle (_op : String) (_args : List String) : String := "bad-op"
+`valseq <op> ; <op> ; ...`   runs the operation sequence on a forest of four undefined roots and prints,
+for every step, `<ret>#<root0>#<root1>#<root2>#<root3>`, steps joined by `|`; a root is
+`<deep dump>@<getter summary>` (same format as harness/value_harness.cpp).
+`valspec <op> ; ... ; grp D S key`  runs the sequence, then evaluates the *specification* `groupBySpec`
+on the source of the final `grp` and prints the expected group view (or `none`) and the view of the
+model's result.
+
+Text <-> number conversions are instantiated only on the domain the check uses: `fmtReal` is a table of
+eight reals whose `%.15g` text is unambiguous, `strToNum` parses plain decimal integers and answers
+NotANumber for strings of ASCII letters.
+-/
+namespace Qentem.Driver.Value
+open Qentem.Driver Qentem.Value Qentem.Value.Doc
+
+def unitsStr (l : List Nat) : String :=
+  if l.isEmpty then "-" else ".".intercalate (l.map toString)
+
+def parseUnits (s : String) : Option (List Nat) :=
+  if s == "-" then some [] else (s.splitOn ".").mapM (fun t => t.toNat?)
+
+def hexDigit (n : Nat) : Char := if n < 10 then Char.ofNat (48 + n) else Char.ofNat (87 + n)
+
+def hex16 (n : Nat) : String :=
+  String.ofList ((List.range 16).reverse.map (fun i => hexDigit ((n / 16 ^ i) % 16)))
+
+def parseHex (s : String) : Option Nat :=
+  s.toList.foldlM (fun acc c =>
+    if '0' ≤ c ∧ c ≤ '9' then some (acc * 16 + (c.toNat - 48))
+    else if 'a' ≤ c ∧ c ≤ 'f' then some (acc * 16 + (c.toNat - 87))
+    else none) 0
+
+def asciiStr (s : String) : List Nat := s.toList.map Char.toNat
+
+/-- The reals of the correspondence domain with their default-format text (`%.15g`). -/
+def realTable : List (Nat × String) :=
+  [ (0x0000000000000000, "0"),
+    (0x3ff8000000000000, "1.5"),
+    (0xc006000000000000, "-2.75"),
+    (0x4008000000000000, "3"),
+    (0x3fb999999999999a, "0.1"),
+    (0x4202a05f20000000, "10000000000"),
+    (0x419d6f3454800000, "123456789.125"),
+    (0xbfe0000000000000, "-0.5") ]
+
+def fmtReal (b : Nat) : List Nat :=
+  match realTable.find? (fun e => e.1 == b) with
+  | some e => asciiStr e.2
+  | none => asciiStr ("<real:" ++ hex16 b ++ ">")
+
+def isDigitU (c : Nat) : Bool := 48 ≤ c && c ≤ 57
+
+def digitsVal (l : List Nat) : Nat := l.foldl (fun n c => n * 10 + (c - 48)) 0
+
+/-- Plain decimal integers of at most 18 digits without leading zeros; everything else NotANumber
+(the check only uses such strings and strings of letters). -/
+def strToNum (s : List Nat) : Num :=
+  match s with
+  | [] => Num.nan
+  | 45 :: ds =>
+    if ds.isEmpty || !ds.all isDigitU || ds.length > 18 || ds.head? == some 48 then Num.nan
+    else Num.int (-(digitsVal ds : Int))
+  | ds =>
+    if !ds.all isDigitU || ds.length > 18 || (ds.length > 1 && ds.head? == some 48) then Num.nan
+    else Num.nat (digitsVal ds)
+
+/-! ### dumps -/
+
+def ptrKind (env : Env) (r : Nat) : String :=
+  if isUndefinedP env (ptr r) then "0" else
+  match envGet env r with
+  | ptr _ => "?"
+  | d => toString d.kindNum
+
+/-- `abs = true`: capacities and removed items are not shown (the abstract document). -/
+partial def deepDumpG (abs : Bool) (env : Env) : Doc → String
+  | undef => "U" | null => "N" | tru => "T" | fls => "F"
+  | Doc.nat n => "n" ++ toString n
+  | Doc.int i => "i" ++ toString i
+  | Doc.real b => "r" ++ hex16 b
+  | str s => "s" ++ unitsStr s
+  | arr items => "a(" ++ ";".intercalate (items.map (deepDumpG abs env)) ++ ")"
+  | obj c slots => "o" ++ (if abs then "" else toString c) ++ "(" ++
+      ";".intercalate ((if abs then liveSlots slots else slots).map (fun s =>
+      match s with
+      | none => "_"
+      | some (k, v) => unitsStr k ++ "=" ++ deepDumpG abs env v)) ++ ")"
+  | ptr r => "p" ++ ptrKind env r
+
+def deepDump (env : Env) (d : Doc) : String := deepDumpG false env d
+
+def optUnits (o : Option (List Nat)) : String :=
+  match o with
+  | some l => unitsStr l
+  | none => "~"
+
+def numStr : Num → String
+  | Num.nan => "0"
+  | Num.nat n => "2." ++ toString n
+  | Num.int i => "3." ++ toString i
+  | Num.real b => "1." ++ hex16 b
+
+def probeKeys : List (List Nat) := [[], [97], [98], [97, 97], [97, 98], [49]]
+
+def optKind (o : Option Doc) : String :=
+  match o with
+  | some d => toString d.kindNum
+  | none => "~"
+
+def summary (env : Env) (d : Doc) : String :=
+  let flags := String.ofList ([if isUndefinedP env d then '1' else '0'] ++
+    ([2, 3, 4, 5, 6, 7, 8, 9, 10].map (fun k => if isKind1 env k d then '1' else '0')) ++
+    [if isNumber env d then '1' else '0'])
+  let sz := size env d
+  let idxProbe := (List.range (min sz 6 + 1)).map (fun i =>
+    optKind (getValueIdx env d i) ++ "/" ++ optUnits (getKey env d i) ++ "/" ++
+      (match getValueAndKey env d i with
+       | some (k, v) => unitsStr k ++ "=" ++ toString v.kindNum
+       | none => "~"))
+  ":".intercalate [
+    "k" ++ toString d.kindNum,
+    flags,
+    "t" ++ toString (numberType env d),
+    "z" ++ toString sz,
+    "g" ++ optUnits (getString env d),
+    "m" ++ numStr (setNumber strToNum env d),
+    "u" ++ (match getUInt64 strToNum env d with | some n => toString n | none => "?"),
+    "j" ++ (match getInt64 strToNum env d with | some n => toString n | none => "?"),
+    "d" ++ hex16 (getDouble strToNum env d),
+    "b" ++ (match setBool env d with | some true => "1" | some false => "0" | none => "-"),
+    "c" ++ optUnits (setCharAndLength env d),
+    "v" ++ optUnits (copyValueTo fmtReal env d),
+    "y" ++ unitsStr (stringify fmtReal env d),
+    "q" ++ ",".intercalate (probeKeys.map (fun k => optKind (getValueKey env d k))),
+    "x" ++ ",".intercalate idxProbe,
+    "e" ++ String.ofList (env.map (fun o => if valEq env d o then '1' else '0'))
+  ]
+
+def rootDump (env : Env) (d : Doc) : String := deepDump env d ++ "@" ++ summary env d
+
+/-- `sel`: the roots to print (all when empty). -/
+def envDump (sel : List Nat) (env : Env) : String :=
+  "#".intercalate (((List.range env.length).filter (fun i => sel.isEmpty || sel.contains i)).map
+    (fun i => rootDump env (envGet env i)))
+
+/-! ### parsing -/
+
+def parseSel (t : String) : Option Sel :=
+  match t.toList with
+  | 'k' :: _ :: rest => (parseUnits (String.ofList rest)).map Sel.key
+  | 'i' :: _ :: rest => (String.ofList rest).toNat?.map Sel.idx
+  | _ => none
+
+def parseLoc (t : String) : Option Loc :=
+  match t.splitOn "/" with
+  | r :: sels =>
+    match r.toNat?, sels.mapM parseSel with
+    | some r, some p => some ⟨r, p⟩
+    | _, _ => none
+  | [] => none
+
+def parsePayload (t : String) : Option Doc :=
+  match t.toList with
+  | ['N'] => some null
+  | ['T'] => some tru
+  | ['F'] => some fls
+  | ['U'] => some undef
+  | 'n' :: r => (String.ofList r).toNat?.map Doc.nat
+  | 'u' :: r => (String.ofList r).toNat?.map Doc.nat
+  | 'i' :: r => (String.ofList r).toInt?.map Doc.int
+  | 'j' :: r => (String.ofList r).toInt?.map Doc.int
+  | 'r' :: r => (parseHex (String.ofList r)).map Doc.real
+  | 'f' :: r => (parseHex (String.ofList r)).map Doc.real
+  | 's' :: _ :: r => (parseUnits (String.ofList r)).map Doc.str
+  | _ => none
+
+def parseRootOpt (t : String) : Option (Option Nat) :=
+  if t == "-" then some none else t.toNat?.map some
+
+def parseOp (toks : List String) : Option Op :=
+  match toks with
+  | ["set", l, "z"] => (parseLoc l).map Op.touch
+  | ["set", l, p] => do some (Op.assign (← parseLoc l) (← parsePayload p))
+  | ["typ", l, k] => do some (Op.setType (← parseLoc l) (← k.toNat?))
+  | ["cpy", l, s, _] => do some (Op.copy (← parseLoc l) (← parseLoc s))
+  | ["mov", l, s, _] => do some (Op.move (← parseLoc l) (← parseLoc s))
+  | ["obj", l, s, _] => do some (Op.assignObj (← parseLoc l) (← parseLoc s))
+  | ["arr", l, s, _] => do some (Op.assignArr (← parseLoc l) (← parseLoc s))
+  | ["ptr", l, r] => do some (Op.setPtr (← parseLoc l) (← parseRootOpt r))
+  | ["app", l, p] => do some (Op.append (← parseLoc l) (← parsePayload p))
+  | ["apv", l, s, "a"] => do some (Op.appendMove (← parseLoc l) (← parseLoc s))
+  | ["apv", l, s, "b"] => do some (Op.appendCopy (← parseLoc l) (← parseLoc s))
+  | ["apo", l, s, _] => do some (Op.appendObj (← parseLoc l) (← parseLoc s))
+  | ["apa", l, s, _] => do some (Op.appendArr (← parseLoc l) (← parseLoc s))
+  | ["adp", l, r] => do some (Op.addPtr (← parseLoc l) (← parseRootOpt r))
+  | ["ins", l, k, p] => do some (Op.insert (← parseLoc l) (← parseUnits k) (← parsePayload p))
+  | ["inm", l, k, s] => do some (Op.insertMove (← parseLoc l) (← parseUnits k) (← parseLoc s))
+  | ["mrg", l, s, "a"] => do some (Op.mergeMove (← parseLoc l) (← parseLoc s))
+  | ["mrg", l, s, "b"] => do some (Op.mergeCopy (← parseLoc l) (← parseLoc s))
+  | ["rem", l, k, _] => do some (Op.remove (← parseLoc l) (← parseUnits k))
+  | ["rmi", l, i, _] => do some (Op.removeIdx (← parseLoc l) (← i.toNat?))
+  | ["rst", l] => do some (Op.reset (← parseLoc l))
+  | ["cmp", l] => do some (Op.compress (← parseLoc l))
+  | ["grp", d, s, k] => do some (Op.groupBy (← d.toNat?) (← parseLoc s) (← parseUnits k))
+  | _ => none
+
+def splitOps (args : List String) : List (List String) :=
+  ((" ".intercalate args).splitOn " ; ").map (fun o => (o.splitOn " ").filter (· != ""))
+
+def initEnv : Env := [undef, undef, undef, undef]
+
+def runSeq (sel : List Nat) (ops : List Op) : String :=
+  "|".intercalate ((run fmtReal ops initEnv).map (fun r => showBool r.2 ++ "#" ++ envDump sel r.1))
+
+/-! ### GroupBy specification view -/
+
+def membersStr (env : Env) (m : List (Key × Doc)) : String :=
+  "{" ++ ";".intercalate (m.map (fun e => unitsStr e.1 ++ "=" ++ deepDumpG true env e.2)) ++ "}"
+
+def viewStr (env : Env) (v : List (Key × List (List (Key × Doc)))) : String :=
+  ",".intercalate (v.map (fun g => unitsStr g.1 ++ ":[" ++ "".intercalate (g.2.map (membersStr env)) ++ "]"))
+
+/-- the input objects of a grouping source (through pointers), `none` if some element is not an object. -/
+def specInput (env : Env) (src : Doc) : Option (List (List (Key × Doc))) :=
+  match deref env src with
+  | arr items => items.mapM (fun it => match it with
+      | obj _ s => if allDefined s then some (members s) else none
+      | _ => none)
+  | _ => none
+
+def specOf (env : Env) (src : Doc) (key : Key) : String :=
+  match specInput env src with
+  | some objs =>
+    match groupBySpec (groupText fmtReal env) key objs [] with
+    | some g => viewStr env g
+    | none => "none"
+  | none => "none"
+
+def runSpec (ops : List Op) : String :=
+  match ops.reverse with
+  | Op.groupBy dest s k :: before =>
+    let env := runFinal fmtReal before.reverse initEnv
+    match getAt (envGet env s.root) s.path with
+    | some x =>
+      let m := groupByA fmtReal env x k (envGet env dest)
+      "spec=" ++ specOf env x k ++ " model=" ++ showBool m.1 ++ "/" ++ viewStr env (groupView m.2)
+    | none => "no-source"
+  | _ => "bad-op"
+
+/-- `valview <deep-dump-free form>` is not needed: the harness prints the same view itself. -/
+def handle (op : String) (args : List String) : String :=
+  let (sel, args) : List Nat × List String :=
+    match args with
+    | a :: rest => if a.startsWith "@" then ((a.toList.drop 1).map (fun c => c.toNat - 48), rest) else ([], args)
+    | [] => ([], [])
+  match (splitOps args).mapM parseOp with
+  | none => "bad-op"
+  | some ops =>
+    if op == "valseq" then runSeq sel ops
+    else if op == "valspec" then runSpec ops
+    else "bad-op"
 
 end Qentem.Driver.Value
